@@ -128,14 +128,22 @@ def check_case(lines, snip, t, pre, edit_t, base_exec):
         if ob["pre_state"] in ("Paused", "Holding") and ob["state"] in ("Paused", "Holding"):
             probs.append((f"C14:snippet-ran-while-{ob['state']}:{snip}", f"injected Mark appeared in tick {k} which was {ob['pre_state']}->{ob['state']}"))
     if has_mark and snip in ("mark", "block") and edited_ok and edit_t is None and not stalled_block:
-        running = [ob["n"] for ob in run.obs[t:] if ob["pre_state"] == "Running" and ob["state"] == "Running"]
+        running = [ob["n"] for ob in run.obs[t:] if ob["pre_state"] == "Running" and ob["state"] == "Running"
+                   # an injected Block waits while a method block holds the block lock (blocks exclude each other, C05)
+                   and (snip != "block" or ob["tags"]["Block"] in (None, "", "ib"))]
         if len(running) > 6 and (not eff or eff[0] > running[6]):
             probs.append((f"C14:snippet-late:{tag}", f"injected at tick {t}; first effect {eff[:1]} later than the 6th running tick {running[6]}"))
     # the method itself is unaffected
     final_exec = [x for x in run.method_state()["executed"] if x != "NE"]
     same_name = cmdname is not None and any(c.strip().startswith(cmdname) for _, c in lines)
     if edit_t is None and pre is None and not same_name and not stalled_block and final_exec != base_exec:
-        probs.append((f"C14:executed-lines-differ:{tag}", f"executed {final_exec} vs injection-free run {base_exec}"))
+        by_id = dict(lines)
+        extra = [x for x in final_exec if x not in base_exec]
+        missing = [x for x in base_exec if x not in final_exec]
+        # the injected 'End block' ended a block of the method (which has no End block of its own / not yet reached)
+        ctx_ = (":method-block-ended-by-injected-End-block"
+                if snip == "block" and extra and not missing and all(by_id.get(x, "").strip().startswith("Block") for x in extra) else "")
+        probs.append((f"C14:executed-lines-differ:{tag}{ctx_}", f"executed {final_exec} vs injection-free run {base_exec}"))
     run.cleanup()
     return probs
 
